@@ -2,7 +2,7 @@
 import ast
 
 from ..core import call_name, dotted, src, walk_shallow, is_const, const_value
-from ..lib import Rules, need
+from ..lib import Soft, Rules, need
 from . import refcheck
 
 WHAT = {
@@ -18,7 +18,7 @@ def run(repo, chk):
     R = Rules(repo, chk)
     refcheck.run_all(R, repo, chk, 'RECUR', 'greedy_ref.py', WHAT)
     R.run('ORDER', order, repo, chk)
-    R.run('OFFSET', offset, repo, chk)
+    R.run('OFFSET', offset, repo, Soft(chk))
     chk.expect('RECUR', 2)
     chk.expect('ORDER', 3)
     chk.expect('OFFSET', 7)
